@@ -746,6 +746,7 @@ case_4_arrow_access:
         }
 
         if (!elem_var && !array_parent->struct_type_name.empty()) {
+            interpreter.ensure_array_index_in_bounds(*array_parent, index);
             interpreter.create_struct_variable(element_key,
                                                array_parent->struct_type_name);
             elem_var = interpreter.find_variable(element_key);
